@@ -691,11 +691,11 @@ class RoundTripSuite(Suite):
             if not through_json:
                 return [] if x == y else ["%s: %s became %s (value changed)" % (path, show_tree(a), show_tree(b))]
             tol = Fraction(1, 10 ** 6) if a[0] == "f" else Fraction(1, 10 ** 9)
-            if y in ("nan", "inf", "-inf"):
-                return ["%s: %s became %s" % (path, show_tree(a), y)]
             ax = abs(x)
             if ax != 0 and not (Fraction(1, 10 ** 300) <= ax <= Fraction(10) ** 300):
                 return []
+            if y in ("nan", "inf", "-inf"):
+                return ["%s: %s became %s" % (path, show_tree(a), y)]
             lim = tol * max(1, ax) + Fraction(1, 10 ** 6) * ax
             return [] if abs(x - y) <= lim else ["%s: %s became %s (error %.2e)" % (path, show_tree(a), show_tree(b), float(abs(x - y) / max(1, ax)))]
         if a[0] == "?":
